@@ -17,6 +17,15 @@
 (* process fetched, "the upload configuration fetched for the run" is the one *)
 (* published when the run starts.                                              *)
 (*                                                                            *)
+(* Several uploaders may work on one directory.  A run may LOSE the exclusive *)
+(* creation of local.<week>.json to another uploader that created it between *)
+(* this run's existence checks and its own create (`how = "raced"`): the run   *)
+(* still builds, keeps and posts its upload report.  For the specification    *)
+(* that changes nothing either: every body that is ever posted from this       *)
+(* directory is the approved subset built for its week, whatever file it was   *)
+(* read from, and a week that was refused or acknowledged is never posted      *)
+(* again.                                                                      *)
+(*                                                                            *)
 (* TLC checks the invariants on the whole state graph for small constants and *)
 (* produces -simulate behaviours; the harness replays them run by run into    *)
 (* the real upload.Run and compares requests and directory contents with the  *)
@@ -53,6 +62,9 @@ HXs == {D \div 4, (3 * D) \div 4}
 (* again); every other status (5xx, and 2xx other than 200) leaves the report *)
 (* in place to be sent again                                                  *)
 Replies == {200, 204, 400, 404, 500, 503}
+(* how a run happens: in the process of the earlier runs, in a fresh process, or
+   (same process) losing the creation of the local reports to a concurrent uploader *)
+Hows == {"same", "fresh", "raced"}
 Acked(r) == r = 200
 Refused(r) == r \in 400..499
 
@@ -87,7 +99,7 @@ Publish(c) ==
     /\ last' = [op |-> "publish", cfg |-> c, ver |-> npub + 1]
     /\ UNCHANGED <<pending, archive, built, ready, uploaded, dropped, posts, nrun>>
 
-Run(x, reply, fresh) ==
+Run(x, reply, how) ==
     /\ nrun < MaxRuns
     /\ LET new == {f.week : f \in pending}
            send == ready \cup new
@@ -99,12 +111,12 @@ Run(x, reply, fresh) ==
           /\ dropped' = IF Refused(reply) THEN dropped \cup send ELSE dropped
     /\ pending' = {}
     /\ nrun' = nrun + 1
-    /\ last' = [op |-> "run", cfg |-> published, ver |-> npub, x |-> x, reply |-> reply, fresh |-> fresh]
+    /\ last' = [op |-> "run", cfg |-> published, ver |-> npub, x |-> x, reply |-> reply, how |-> how]
     /\ UNCHANGED <<published, npub>>
 
 Next == /\ \/ \E w \in WeekSet : \E fs \in HFiles(w) : Arrive(w, fs)
            \/ \E c \in CfgIds : Publish(c)
-           \/ \E x \in HXs, reply \in Replies, fresh \in BOOLEAN : Run(x, reply, fresh)
+           \/ \E x \in HXs, reply \in Replies, how \in Hows : Run(x, reply, how)
         /\ obs' = ViewOf(built', archive', ready', posts', uploaded', pending')
 Spec == Init /\ [][Next]_vars
 
@@ -114,15 +126,18 @@ Spec == Init /\ [][Next]_vars
 (* changing in between (random walks of Next rarely take the Publish step).     *)
 NextCycle == /\ \/ /\ last.op \in {"init", "publish"}
                    /\ \/ \E w \in WeekSet : \E fs \in HFiles(w) : Arrive(w, fs)
-                      \/ \E x \in HXs, reply \in Replies, fresh \in BOOLEAN : Run(x, reply, fresh)
+                      \/ \E x \in HXs, reply \in Replies, how \in Hows : Run(x, reply, how)
                 \/ /\ last.op = "arrive"
-                   /\ \E x \in HXs, reply \in Replies, fresh \in BOOLEAN : Run(x, reply, fresh)
+                   /\ \E x \in HXs, reply \in Replies, how \in Hows : Run(x, reply, how)
                 \/ /\ last.op = "run"
                    /\ IF npub < MaxPub THEN \E c \in CfgIds : Publish(c)
                       ELSE \/ \E w \in WeekSet : \E fs \in HFiles(w) : Arrive(w, fs)
-                           \/ \E x \in HXs, reply \in Replies, fresh \in BOOLEAN : Run(x, reply, fresh)
+                           \/ \E x \in HXs, reply \in Replies, how \in Hows : Run(x, reply, how)
              /\ obs' = ViewOf(built', archive', ready', posts', uploaded', pending')
 SpecCycle == Init /\ [][NextCycle]_vars
+
+(* exhaustive search: the label of the last action and the derived observation do not distinguish states *)
+HView == <<pending, archive, built, ready, uploaded, dropped, posts, published, npub, nrun>>
 
 (* ---- properties -----------------------------------------------------------------------*)
 TypeOK == /\ ready \subseteq Reported /\ uploaded \subseteq Reported /\ dropped \subseteq Reported
